@@ -80,8 +80,8 @@ def run_history_shard(prop, seed, shard, of, tier, deadline, *, cases,
         res.evaluations += 1
         res.counters['operations_observed'] += ctx.nevents
         res.counters.update(ctx.counters)
-        if ctx.state is None:
-            res.counters['constructor_refused'] += 1
+        if 'ctor_exc' in ctx.data:
+            res.counters['constructor_raised'] += 1
         if 'op_exc' in ctx.data:
             res.counters['hands_aborted_by_exception'] += 1
         if after_hand is not None:
@@ -92,7 +92,8 @@ def run_history_shard(prop, seed, shard, of, tier, deadline, *, cases,
                 f"{v['what']} || {gen.describe(cfg)} || "
                 f"ops: {compress_kinds(ctx.kinds)}",
                 payload_of(ctx), kf=kf)
-        if ctx.state is not None and nontrivial(ctx):
+        if ctx.state is not None and 'ctor_exc' not in ctx.data \
+                and nontrivial(ctx):
             res.sigs.add(signature(ctx))
             res.add_sample({'config': gen.describe(cfg),
                             'operations': compress_kinds(ctx.kinds),
